@@ -263,14 +263,16 @@ def r_reducers_flow(e, R):
             R.check(got == f.params[1:3], "R-REDUCERS-FLOW", f"{f.short}: forwards both reducer maps to the base set-up", f.short, norm(c)[:60],
                     "the reusable executor drops or swaps the reducers", e.loc(f, c))
     # queue classes store and use their own reducers
+    RED = {}
     for cq in (f"{QU}:Queue", f"{QU}:SimpleQueue"):
         c = e.prog.cls(cq)
         ci = c.methods["__init__"]
         fl = ctor_fields(e, ci)
-        R.check(fl.get("reducers") == "_reducers", "R-REDUCERS-FLOW", f"{c.name}.__init__ keeps its reducers", ci.short, "self._reducers = reducers",
+        RED[c.name] = fl.get("reducers")   # the field filled from the public `reducers` argument, whatever it is called
+        R.check(bool(RED[c.name]), "R-REDUCERS-FLOW", f"{c.name}.__init__ keeps its reducers", ci.short, f"self.{RED[c.name]} = reducers",
                 "the queue forgets its reducers", e.loc(ci, ci.node))
     put = e.prog.func(f"{QU}:SimpleQueue.put")
-    okp = any(isinstance(n, ast.Call) and e.callees_of(n) & {f"{RD}:dumps"} and any(k.arg == "reducers" and norm(k.value) == "self._reducers" for k in n.keywords)
+    okp = any(isinstance(n, ast.Call) and e.callees_of(n) & {f"{RD}:dumps"} and any(k.arg == "reducers" and norm(k.value) == f"self.{RED.get('SimpleQueue')}" for k in n.keywords)
               for n in func_nodes(put))
     R.check(okp, "R-REDUCERS-FLOW", "SimpleQueue.put serialises with its own reducers", put.short, "dumps(obj, reducers=self._reducers)",
             "results are serialised without the result queue's reducers", e.loc(put, put.node))
@@ -282,7 +284,7 @@ def r_reducers_flow(e, R):
             args = next((k.value for k in n.keywords if k.arg == "args"), None)
             if isinstance(args, ast.Tuple) and len(args.elts) == len(feed.params):
                 i = feed.params.index("reducers") if "reducers" in feed.params else -1
-                okf = i >= 0 and norm(args.elts[i]) == "self._reducers"
+                okf = i >= 0 and norm(args.elts[i]) == f"self.{RED.get('Queue')}"
                 R.check(len(args.elts) == len(feed.params), "R-REDUCERS-FLOW", "feeder thread gets as many arguments as it has parameters", st.short, norm(args)[:60],
                         "feeder arity mismatch", e.loc(st, n))
     R.check(okf, "R-REDUCERS-FLOW", "the feeder thread receives the queue's own reducers in the reducers position", st.short, "args=(..., self._reducers, ...)",
